@@ -7,6 +7,10 @@ mod pr;
 mod ev;
 mod geo;
 mod tri;
+mod d2;
+mod d3;
+mod pyc;
+mod q2;
 
 use util::*;
 
@@ -42,6 +46,10 @@ fn main() {
         "eval" => ev::run_eval(&o),
         "lists" => ev::run_lists(&o),
         "tri" => tri::run(&o),
+        "disp2d" => d2::run(&o),
+        "disp3d" => d3::run(&o),
+        "pycases" => pyc::run(&o),
+        "quad2d" => q2::run(&o),
         _ => { eprintln!("unknown stream {}", stream); std::process::exit(2); }
     };
     let js = rep.to_json();
